@@ -23,7 +23,7 @@ type solverSpec struct {
 var solvers = []solverSpec{
 	{"z3-new", "z3-new", []string{"-smt2"}},
 	{"z3", "/usr/bin/z3", []string{"-smt2"}},
-	{"cvc5", "cvc5", []string{"--lang=smt2", "--incremental"}},
+	{"cvc5", "cvc5", []string{"--lang=smt2", "--incremental", "--strings-exp"}},
 }
 
 type SolveOpts struct {
@@ -51,7 +51,11 @@ func (o *Obligation) smt(withModel bool) string {
 	if o.batch {
 		npf = o.noProvedFrom
 	}
-	b.WriteString(o.sc.prefixHiding(o.mark, o.hide, npf))
+	if o.sc.native {
+		b.WriteString(o.sc.nativePrefix(o.mark, o.hide, npf))
+	} else {
+		b.WriteString(o.sc.prefixHiding(o.mark, o.hide, npf))
+	}
 	b.WriteString("\n(assert " + o.cond + ")\n(check-sat)\n")
 	if withModel && len(o.getvals) > 0 {
 		b.WriteString("(get-value (" + strings.Join(o.getvals, " ") + "))\n")
